@@ -2,13 +2,20 @@
 
   1. TLC checks spec/transport/UdpPeers.tla (Impl: one action per handler of UdpEngine's I/O thread, kernel EAGAIN as an
      environment action) exhaustively for 2 peers x 2 listeners, <= 4 sessions, with and without a session cap:
-     Inv_Sticky, Inv_RxPeer, Inv_OneDatagram, Inv_Addressed, Inv_Index, Inv_IndexOwner.
+     Inv_Sticky, Inv_RxPeer, Inv_OneDatagram, Inv_Addressed, Inv_Index, Inv_IndexOwner, Inv_NoStrand; and, with bursts
+     (several datagrams waiting in one socket queue while the I/O thread is busy, edge- and level-triggered epoll, the
+     read loop "until EAGAIN" as its own actions), the same invariants for a smaller configuration.
   2. Regression probe: with Dev_ForeignCloseErasesIndex = TRUE (closeNow erases the peer index unconditionally, F-06a)
      TLC must find the Via/Close counterexample; that behaviour is replayed on the real engine like every other one.
+     Dev_ReadBudget = TRUE (the read loop stops after a per-wake-up budget) must violate Inv_NoStrand under edge-triggered
+     epoll; that counterexample is replayed too (as a burst of >= 200 datagrams).
   3. Behaviours = a transition cover sample + random walks of the dumped state graph (3 datagram size classes) + TLC
      -simulate behaviours of a deeper configuration.  Each is replayed on the real UdpEngine over loopback by
      harness/drv_udp (raw UDP peers, EAGAIN/error injection at send()/sendto(), virtual idle time, GC timer on demand;
-     sequential, quiescence after every step).
+     sequential, quiescence after every step).  Burst behaviours park the I/O thread inside a callback, let the raw peers
+     queue 1 / 70 / 100 datagrams per model arrival on a listener or connected client socket, release it and then send
+     nothing any more.  A third of the behaviours run on dual-stack IPv6 listeners (bind "::") with the peers
+     ::ffff:127.0.0.1, ::ffff:127.0.0.2 (16-character numeric text) and ::1.
   4. The recorded events are validated against the Abs oracle spec/transport/UdpTrace.tla.  A rejection is re-run before
      it is reported.  Differences between the outcome the Impl model predicted and the observed one are model drift (noted).
 """
@@ -19,7 +26,9 @@ SPECDIR = os.path.join(vf.SPEC, "transport")
 IMPL = os.path.join(SPECDIR, "UdpPeers.tla")
 TRACE_TLA = os.path.join(SPECDIR, "UdpTrace.tla")
 TRACE_CFG = os.path.join(SPECDIR, "UdpTrace.cfg")
-INVS = ["Inv_Sticky", "Inv_RxPeer", "Inv_OneDatagram", "Inv_Addressed", "Inv_Index", "Inv_IndexOwner"]
+INVS = ["Inv_Sticky", "Inv_RxPeer", "Inv_OneDatagram", "Inv_Addressed", "Inv_Index", "Inv_IndexOwner", "Inv_NoStrand"]
+BURST_ACTIONS = ["ArriveL", "ArriveC", "EpollInL", "EpollInC", "ReadKnown", "ReadAccept", "ReadCapDrop", "ReadC", "ReadStopL",
+                 "ReadStopC"]
 ACTIONS = ["DgKnown", "DgAccept", "DgCapDrop", "Connect", "CliDg", "Via", "ViaCapClose", "Close", "Advance", "GcRun",
            "SendOk", "SendEagain", "SendEagainBp", "SendErr", "SendClosed", "BlockL", "UnblockL", "FlushL", "BlockC",
            "UnblockC", "FlushC"]
@@ -27,7 +36,8 @@ ACTIONS = ["DgKnown", "DgAccept", "DgCapDrop", "Connect", "CliDg", "Via", "ViaCa
 PARAMS = {"DgKnown": "plz", "DgAccept": "plz", "DgCapDrop": "plz", "Connect": "p", "CliDg": "psz", "Via": "lp",
           "ViaCapClose": "lp", "Close": "s", "Advance": "", "GcRun": "", "SendOk": "sz", "SendEagain": "sz",
           "SendEagainBp": "sz", "SendErr": "sz", "SendClosed": "sz", "BlockL": "l", "UnblockL": "l", "FlushL": "l",
-          "BlockC": "s", "UnblockC": "s", "FlushC": "s"}
+          "BlockC": "s", "UnblockC": "s", "FlushC": "s", "ArriveL": "plz", "ArriveC": "pcz", "EpollInL": "l", "EpollInC": "c",
+          "ReadKnown": "l", "ReadAccept": "l", "ReadCapDrop": "l", "ReadC": "c", "ReadStopL": "l", "ReadStopC": "c"}
 STEP = {"DgKnown": "DG {0} {1} {2}", "DgAccept": "DG {0} {1} {2}", "DgCapDrop": "DG {0} {1} {2}", "Connect": "CONNECT {0}",
         "CliDg": "CDG {0} {1} {2}", "Via": "VIA {0} {1}", "ViaCapClose": "VIA {0} {1}", "Close": "CLOSE {0}",
         "Advance": "ADV", "GcRun": "GC", "SendOk": "SEND {0} {1}", "SendEagain": "SEND {0} {1}",
@@ -36,10 +46,12 @@ STEP = {"DgKnown": "DG {0} {1} {2}", "DgAccept": "DG {0} {1} {2}", "DgCapDrop": 
 NONTRIVIAL = {"Via", "ViaCapClose", "Close", "GcRun", "SendEagain", "SendEagainBp", "SendErr", "DgCapDrop", "CliDg"}
 
 
-def consts(max_sid, max_steps, sizes, cap, dev=False, model_values=False, wq=1):
-    return {"Peers": "{p1, p2}" if model_values else '{"p1", "p2"}', "Listeners": "{l1, l2}" if model_values else "{1, 2}",
+def consts(max_sid, max_steps, sizes, cap, dev=False, model_values=False, wq=1, burst=0, et=True, budget_dev=False, listeners=None):
+    return {"Peers": "{p1, p2}" if model_values else '{"p1", "p2"}',
+            "Listeners": listeners or ("{l1, l2}" if model_values else "{1, 2}"),
             "MaxSid": max_sid, "MaxSteps": max_steps, "Sizes": "{" + ", ".join('"%s"' % z for z in sizes) + "}",
-            "Cap": cap, "MaxWq": wq, "Dev_ForeignCloseErasesIndex": dev}
+            "Cap": cap, "MaxWq": wq, "MaxBurst": burst, "Budget": 2, "ET": et, "Dev_ForeignCloseErasesIndex": dev,
+            "Dev_ReadBudget": budget_dev}
 
 
 def mc_module(ck, name):
@@ -71,6 +83,7 @@ InitOut ==
     /\\ blockedL = {} /\\ blockedC = {} /\\ stale = {} /\\ nextId = 1 /\\ sent = <<>> /\\ wire = {}
     /\\ owner = [k \\in Peers \\X Listeners |-> IF k = <<"p1", 1>> THEN 1 ELSE IF k = <<"p2", 1>> THEN 2 ELSE 0]
     /\\ stickyOk = TRUE /\\ rxOk = TRUE /\\ steps = 0
+    /\\ rq = [k \\in RSocks |-> <<>>] /\\ inEvt = {} /\\ rd = None /\\ cnt = 0
 NextOut == \\/ \\E s \\in Sids, z \\in Sizes : SendOk(s, z) \\/ SendEagain(s, z) \\/ SendEagainBp(s, z) \\/ SendErr(s, z) \\/ SendClosed(s, z)
            \\/ \\E l \\in Listeners : BlockL(l) \\/ UnblockL(l) \\/ FlushL(l)
            \\/ \\E s \\in Sids : Close(s)
@@ -91,17 +104,55 @@ def label_to_step(label):
     return name, (fmt.format(*args) if fmt else None)
 
 
-def behaviour(labels, cap, i, wq=1):
-    """labels -> (case line, action names)"""
+SID_ARG = {"CliDg": 1, "Close": 0, "SendOk": 0, "SendEagain": 0, "SendEagainBp": 0, "SendErr": 0, "SendClosed": 0, "BlockC": 0,
+           "UnblockC": 0, "ArriveC": 1}
+CREATES = {"DgAccept": "a", "ReadAccept": "a", "Connect": "c", "Via": "c", "ViaCapClose": "c"}
+
+
+def behaviour(labels, cap, i, wq=1, mult=None):
+    """labels -> (case line, action names).  Sessions are named by how they come into being - a<n> = the n-th implicit accept,
+    c<n> = the n-th connect / connectViaListener call - because the model numbers them in the order of its own steps, which
+    the real engine need not follow when datagrams wait in a socket queue.  Burst actions (mult given): the I/O thread is
+    parked before the first arrival, every model arrival is `mult` datagrams, and it is released where the behaviour starts
+    reading (or does anything else)."""
     steps, names = [], []
+    parked = False
+    sidname, made = {}, {"a": 0, "c": 0}
     for lab in labels:
-        name, st = label_to_step(lab)
+        name, args = vf.label_thread(lab)
         names.append(name)
-        if st:
-            steps.append(st)
+        if name in CREATES:
+            made[CREATES[name]] += 1
+            sidname[str(len(sidname) + 1)] = "%s%d" % (CREATES[name], made[CREATES[name]])
+        if name in SID_ARG:
+            args = list(args)
+            args[SID_ARG[name]] = sidname.get(args[SID_ARG[name]], args[SID_ARG[name]])
+        if name in ("ArriveL", "ArriveC"):
+            if not parked:
+                steps.append("PARK")
+                parked = True
+            steps.append(("RAW %s %s %s %d" if name == "ArriveL" else "RAWC %s %s %s %d") % (args[0], args[1], args[2], mult or 1))
+            continue
+        if parked:
+            steps.append("RELEASE")
+            parked = False
+        if name in BURST_ACTIONS:
+            continue
+        if name not in STEP:
+            raise vf.Infra("unknown Impl action in behaviour: " + lab)
+        if STEP[name]:
+            steps.append(STEP[name].format(*args))
+    if parked:
+        steps.append("RELEASE")
     et = 0 if i % 4 == 3 else 1
     batch = 1 if i % 3 == 2 else 0
-    return "cap=%d et=%d batch=%d wq=%d ; %s" % (cap, et, batch, wq, " ; ".join(steps)), names
+    # every third behaviour runs on dual-stack IPv6 listeners: p1 / p2 reach the engine as ::ffff:127.0.0.1 / ::ffff:127.0.0.2
+    # (numeric text of 16 characters); in half of those p2 is replaced by p3 = ::1
+    v6 = 1 if i % 3 == 1 else 0
+    text = " ; ".join(steps)
+    if v6 and i % 6 == 4:
+        text = re.sub(r"\bp2\b", "p3", text)
+    return "cap=%d et=%d batch=%d wq=%d v6=%d ; %s" % (cap, et, batch, wq, v6, text), names
 
 
 def action_cover(g, rng, per_action, maxlen=12):
@@ -145,6 +196,21 @@ def action_cover(g, rng, per_action, maxlen=12):
 # datagrams with different destinations wait in one listener queue
 GRAPH_WQ = {0: 1, 2: 2}
 SIM_WQ = {0: 2, 2: 1}
+
+
+def directed(g, rng, names):
+    """a behaviour of the graph whose first actions have the given names (any arguments), then a short random continuation"""
+    node, path = g.init[0], []
+    for want in names:
+        cands = [(lab, d) for lab, d in g.edges[node] if lab.split("(")[0] == want]
+        if path and want in ("ArriveL", "ArriveC") and path[-1].split("(")[0] == want:      # keep hitting the same socket
+            same = [(lab, d) for lab, d in cands if vf.label_thread(lab)[1][1] == vf.label_thread(path[-1])[1][1]]
+            cands = same or cands
+        if not cands:
+            return None
+        lab, node = rng.choice(cands)
+        path.append(lab)
+    return path + g.walk_to_end(node, rng, 8)
 
 
 def sim_behaviours(ck, cap, num, seed, depth=16, max_steps=10):
@@ -201,8 +267,33 @@ def run(ck):
         mod, cfg, dot = focus_module(ck)
         return vf.run_tlc(mod, cfg, tag="C06_focus", workers=2, dump_dot=dot, lib_dirs=[SPECDIR])
 
+    # bursts: one listener, <= 2 sessions, up to 3 datagrams waiting per socket queue; edge- and level-triggered; with a cap
+    bl = '{1}'
+    burst_keys = [("et", dict(et=True)), ("lt", dict(et=False)), ("etcap", dict(et=True, cap=1))]
+
+    def job_burst(key):
+        name, kw = key
+        cfg = os.path.join(ck.work, "burst_%s.cfg" % name)
+        vf.write_cfg(cfg, constants=consts(2, 7 if thorough else 6, "m", kw.get("cap", 0), burst=3, et=kw["et"], listeners=bl), invariants=INVS)
+        return vf.run_tlc(IMPL, cfg, tag="C06_burst_" + name, workers=3, timeout=1500)
+
+    def job_budget(et):
+        cfg = os.path.join(ck.work, "budget_%d.cfg" % et)
+        vf.write_cfg(cfg, constants=consts(2, 6, "m", 0, burst=3, et=bool(et), budget_dev=True, listeners=bl), invariants=["Inv_NoStrand"])
+        return vf.run_tlc(IMPL, cfg, tag="C06_budget%d" % et, workers=2, timeout=900, dump_trace=os.path.join(ck.work, "cex_budget%d.json" % et))
+
+    def job_burstgraph(key):
+        et, cap = key
+        cfg = os.path.join(ck.work, "bgen%d%d.cfg" % key)
+        vf.write_cfg(cfg, constants=consts(2, 4, "sm", cap, burst=3, et=bool(et), listeners=bl), invariants=INVS)
+        return vf.run_tlc(IMPL, cfg, tag="C06_bgen%d%d" % key, workers=2, timeout=900, coverage=True,
+                          dump_dot=os.path.join(ck.work, "bgen%d%d.dot" % key))
+
     nsim = 1500 if thorough else 120
     with cf.ThreadPoolExecutor(max_workers=10) as ex:
+        f_burst = {k[0]: ex.submit(job_burst, k) for k in burst_keys}
+        f_budget = {et: ex.submit(job_budget, et) for et in (1, 0)}
+        f_bgen = {k: ex.submit(job_burstgraph, k) for k in ((1, 0), (0, 0), (1, 1))}
         f_mc = {k: ex.submit(job_mc, k) for k in mc_keys}
         f_probe = ex.submit(job_probe)
         f_graph = {cap: ex.submit(job_graph, cap) for cap in (0, 2)}
@@ -213,6 +304,9 @@ def run(ck):
         graphs = {c: f.result() for c, f in f_graph.items()}
         sims = {c: f.result() for c, f in f_sim.items()}
         focus = f_focus.result()
+        bursts = {k: f.result() for k, f in f_burst.items()}
+        budget = {k: f.result() for k, f in f_budget.items()}
+        bgen = {k: f.result() for k, f in f_bgen.items()}
 
     # ---- 1. exhaustive runs of the repaired design
     for (cap, steps, cov), r in mc.items():
@@ -226,8 +320,22 @@ def run(ck):
         if r.violated:
             rp = ck.save_replay("impl_spec_cap%d_%d" % (cap, steps), {"tlc.out": r.out})
             ck.violation("UdpPeers.tla (all deviation flags FALSE) violates %s" % r.violated, rp)
+    for name, r in bursts.items():
+        if r.error:
+            raise vf.Infra("TLC failed on UdpPeers with bursts (%s): %s" % (name, r.error))
+        ck.states += r.distinct
+        ck.transitions += r.generated
+        ck.note("TLC UdpPeers with bursts (%s; 1 listener, <=2 sessions, <=3 datagrams per socket queue): %s" % (name, r.summary()))
+        if r.violated:
+            rp = ck.save_replay("impl_spec_burst_" + name, {"tlc.out": r.out})
+            ck.violation("UdpPeers.tla with bursts (all deviation flags FALSE) violates %s" % r.violated, rp)
+    for (et, bcap), r in bgen.items():
+        if r.error or r.violated:
+            raise vf.Infra("TLC failed on the burst generation graph (ET=%d cap=%d): %s %s" % (et, bcap, r.violated, r.error))
+        for a, (tk, gn) in r.coverage.items():
+            ck.cov[a] = ck.cov.get(a, 0) + gn
     ck.exhaustive = True
-    for a in ACTIONS:
+    for a in ACTIONS + BURST_ACTIONS:
         if ck.cov.get(a, 0) == 0:
             raise vf.Infra("self-test: Impl action %s never taken in the exhaustive runs" % a)
 
@@ -284,6 +392,63 @@ def run(ck):
     for pth in acov + paths + walks:
         line, names = behaviour(FOCUS_PREFIX + pth, 0, len(cases), 2)
         cases.append((line, names, "focus"))
+    # ---- 3b. bursts: the read-budget deviation must strand datagrams under edge-triggered epoll (and only there)
+    r = budget[1]
+    if r.error or r.violated != "Inv_NoStrand" or not r.trace_json:
+        raise vf.Infra("self-test: UdpPeers with Dev_ReadBudget=TRUE (ET) should violate Inv_NoStrand, got %r %s" % (r.violated, r.error))
+    if budget[0].error or budget[0].violated:
+        raise vf.Infra("self-test: Dev_ReadBudget under level-triggered epoll is expected to satisfy Inv_NoStrand, got %r %s" % (
+            budget[0].violated, budget[0].error))
+    ck.states += r.distinct + budget[0].distinct
+    ck.transitions += r.generated + budget[0].generated
+    bcex = []
+    for a in r.trace_json["counterexample"]["action"]:
+        name, ctx = a[1]["name"], a[1].get("context", {})
+        if name in PARAMS:
+            bcex.append("%s(%s)" % (name, ",".join(str(ctx[k]) for k in PARAMS[name])))
+    ck.note("deviation probe: with Dev_ReadBudget TLC finds Inv_NoStrand violated (edge-triggered) after %s; level-triggered: holds" % " -> ".join(bcex))
+    nburst = 0
+    for i in range(8):                      # et/lt x batching x IPv4/IPv6, 100 datagrams per model arrival (3 arrivals = 300)
+        line, names = behaviour(bcex, 0, len(cases), mult=100 if i % 2 == 0 else 70)
+        cases.append((line, names, "burst-probe"))
+        nburst += 1
+    ck.sample({"kind": "TLC counterexample of Dev_ReadBudget, replayed as a burst", "case": cases[-1][0]})
+    big = 0
+    for (et, bcap), r in bgen.items():
+        ck.states += r.distinct
+        ck.transitions += r.generated
+        dot = os.path.join(ck.work, "bgen%d%d.dot" % (et, bcap))
+        g = vf.Graph.load(dot)
+        os.remove(dot)
+        paths, covered, total = g.transition_cover(ck.rng, maxlen=16, limit=1200 if thorough else 60)
+        acov = action_cover(g, ck.rng, 10 if thorough else 3, maxlen=10)
+        walks = g.random_walks(ck.rng, 200 if thorough else 30, maxlen=16)
+        n0 = len(cases)
+        dirs = [directed(g, ck.rng, nm) for nm in (["Connect", "ArriveC", "ArriveC", "ArriveC"], ["ArriveL", "ArriveL", "ArriveL"],
+                                                     ["DgAccept", "ArriveL", "ArriveL", "ArriveL"], ["Connect", "ArriveC", "ArriveC", "ArriveC"])]
+        for pth in [d for d in dirs if d] + acov + paths + walks:
+            if not any(x.startswith("Arrive") for x in pth):
+                continue
+            # a socket with 3 model arrivals gets >= 200 datagrams in some behaviours; the others stay small
+            per_sock = {}
+            for x in pth:
+                nm, ar = vf.label_thread(x)
+                if nm in ("ArriveL", "ArriveC"):
+                    per_sock[(nm, ar[1])] = per_sock.get((nm, ar[1]), 0) + 1
+            heavy = max(per_sock.values()) >= 3 and big < (60 if thorough else 10)
+            mult = (70 if big % 2 else 100) if heavy else (1 if len(cases) % 3 else 8)
+            big += 1 if heavy else 0
+            line, names = behaviour(pth, bcap, len(cases), mult=mult)
+            if "et=%d" % et not in line:
+                line = re.sub(r"et=\d", "et=%d" % et, line)      # the graph was generated for this notification mode
+            cases.append((line, names, "burst"))
+        ck.note("burst generation graph ET=%d cap=%d: %d states, %d edges; %d behaviours with arrivals (cover %d/%d edges)" % (
+            et, bcap, r.distinct, g.n_edges(), len(cases) - n0, covered, total))
+    if big < 4:
+        raise vf.Infra("self-test: no behaviour with >= 200 datagrams on one socket was generated")
+    heavy_cases = [c[0] for c in cases if c[2].startswith("burst") and re.search(r"RAWC? \S+ \S+ \S+ (70|100)", c[0])]
+    if not any(" RAW " in c for c in heavy_cases) or not any(" RAWC " in c for c in heavy_cases):
+        raise vf.Infra("self-test: the big bursts must hit a listener socket and a connected client socket")
     for cap, (r, behs) in sims.items():
         if r.error or r.violated:
             raise vf.Infra("TLC -simulate failed (cap=%d): %s %s" % (cap, r.violated, r.error))
@@ -294,7 +459,7 @@ def run(ck):
             line, names = behaviour(pth, cap, len(cases), SIM_WQ[cap])
             cases.append((line, names, "sim"))
     seen_actions = set(n for _, names, _ in cases for n in names)
-    missing = [a for a in ACTIONS if a not in seen_actions]
+    missing = [a for a in ACTIONS + BURST_ACTIONS if a not in seen_actions]
     if missing:
         raise vf.Infra("self-test: the generated behaviours never take Impl action(s) %s" % missing)
     ck.sample({"kind": "behaviour (case line for drv_udp)", "case": cases[len(cases) // 2][0]})
@@ -305,10 +470,14 @@ def run(ck):
     ck.nontrivial = len(set(line.split(";", 1)[1] for line, names, _ in cases if NONTRIVIAL & set(names)))
     drift = 0
     for (line, names, kind), (start, evs) in zip(cases, execs):
-        pred = sum(1 for n in names if n == "DgAccept")
+        pred = sum(1 for n in names if n in ("DgAccept", "ReadAccept"))
         obs = sum(1 for e in evs if e["e"] == "Accept")
         if pred != obs or any(e["e"] == "Skip" for e in evs):
             drift += 1
+    if getattr(ck, "no_ipv6", 0):
+        ck.note("IPv6 is not available in this sandbox: %d dual-stack behaviours were NOT run (gap (e) of C06 is not exercised)" % ck.no_ipv6)
+    else:
+        ck.note("dual-stack IPv6 listeners: %d behaviours (peers ::ffff:127.0.0.1, ::ffff:127.0.0.2, ::1)" % sum(1 for c in cases if " v6=1 " in c[0]))
     ck.note("%d behaviours replayed; outcome differs from the Impl prediction (accept count / step not performable) in %d" % (
         len(execs), drift))
     ck.sample({"kind": "recorded execution", "case": cases[-1][0], "events": execs[-1][1][:14]})
@@ -332,6 +501,9 @@ def run_cases(ck, lines, name):
         for e in evs:
             if e["e"] in ("Infra", "HarnessTimeout"):
                 raise vf.Infra("execution %d (%s): %s" % (i, lines[i], json.dumps(e)))
+        if len(evs) == 1 and evs[0]["e"] == "NoIPv6":          # no IPv6 in this sandbox: the dual-stack behaviour was not run
+            ck.no_ipv6 = getattr(ck, "no_ipv6", 0) + 1
+            execs[i] = (start, [])
     return execs, events
 
 
